@@ -73,22 +73,23 @@ Qed.
 (* what every reading computation guarantees: mem untouched, Inv kept, unread is a suffix *)
 Definition reads_only (s s' : fb) : Prop :=
   Inv SIZE s' /\ mem s' = mem s /\ exists k, 0 <= k <= len_ s /\ unread s' = skipn (Z.to_nat k) (unread s) /\ len_ s' = len_ s - k
-  /\ wlen SIZE s <= wlen SIZE s'.
+  /\ wlen SIZE s <= wlen SIZE s' /\ (nf s -> nf s').
 Lemma reads_only_refl s : Inv SIZE s -> reads_only s s.
 Proof.
   intros HI. split; [exact HI|]. split; [reflexivity|]. exists 0.
-  destruct HI as (H1&H2&H3&H4&H5). unfold len_. repeat split; try lia. 
+  destruct HI as (H1&H2&H3&H4&H5). unfold len_. repeat split; try lia; auto.
 Qed.
 Lemma reads_only_trans s1 s2 s3 : Inv SIZE s1 -> reads_only s1 s2 -> reads_only s2 s3 -> reads_only s1 s3.
 Proof.
-  intros HI (I2 & M2 & k2 & Hk2 & U2 & L2 & W2) (I3 & M3 & k3 & Hk3 & U3 & L3 & W3).
+  intros HI (I2 & M2 & k2 & Hk2 & U2 & L2 & W2 & N2) (I3 & M3 & k3 & Hk3 & U3 & L3 & W3 & N3).
   split; [exact I3|]. split; [congruence|]. exists (k2 + k3). split; [lia|].
-  split; [rewrite U3, U2, skipn_skipn; f_equal; lia|]. split; lia.
+  split; [rewrite U3, U2, skipn_skipn; f_equal; lia|]. split; [lia|]. split; [lia|auto].
 Qed.
 Lemma reads_only_after_read s n : Inv SIZE s -> 0 <= n <= len_ s -> reads_only s (after_read s n).
 Proof.
   intros HI Hn. destruct (after_read_facts SIZE chk s n HI Hn) as (A & B & C & D & E & F).
-  split; [exact A|]. split; [exact C|]. exists n. repeat split; auto; lia.
+  split; [exact A|]. split; [exact C|]. exists n. split; [lia|]. split; [exact B|]. split; [lia|]. split; [lia|].
+  intros _. apply (nf_after_read SIZE s n HI Hn).
 Qed.
 
 Definition reading (m : M fb (list Z)) : Prop :=
